@@ -109,6 +109,7 @@ def run_shard(seed, tier, shard, nshards):
         out['evaluations'] += 1
         if res is None:
             out['inconclusive'].append('case %d: blocking emit did not return' % k)
+            _keep_hung(case, seed, shard, k)
             continue
         nn = [s for s in case['prog']['nodes'] if s['op'] not in ('sink', 'sink_flush')]
         if len(nn) >= 3 and res.calls and res.nonempty:
@@ -127,3 +128,13 @@ def run_shard(seed, tier, shard, nshards):
 def replay(case):
     _, viols = check_case(case, {}, {})
     return viols
+
+
+def _keep_hung(case, seed, shard, k):
+    """a blocking emit that did not return within the watchdog is inconclusive, but the case is kept for inspection"""
+    import json
+    import os
+    d = os.path.join(os.path.dirname(os.path.dirname(os.path.dirname(os.path.abspath(__file__)))), 'replays')
+    os.makedirs(d, exist_ok=True)
+    with open(os.path.join(d, '%s-hang-%d-%d-%d.json' % (PID, seed, shard, k)), 'w') as fh:
+        json.dump({'property': PID, 'key': PID + ':inconclusive-hang', 'what': 'blocking emit did not return', 'case': case}, fh, default=str)
